@@ -299,6 +299,50 @@ pub fn file_level_docs() -> Vec<(Document, String)> {
         doc.trailer.set(b"K #(".to_vec(), Object::Array(vec![v]));
         docs.push((doc, format!("trailer extra atom {}", i)));
     }
+    // the last object of the file holds text that looks like the end of a PDF file
+    for (i, tail) in [
+        &b"%%EOF"[..], b"startxref\n0\n%%EOF", b"startxref\n12345\n%%EOF\n", b"x\nstartxref\n7\n%%EOF\nstartxref\n9\n%%EOF", b"trailer\n<</Size 1>>\nstartxref\n0\n%%EOF",
+        b"%PDF-1.4\n1 0 obj\nnull\nendobj\nxref\n0 2\n0000000000 65535 f \n0000000009 00000 n \ntrailer\n<</Size 2>>\nstartxref\n28\n%%EOF", b"startxref", b"%%EOF%%EOF%%EOF",
+    ]
+    .iter()
+    .enumerate()
+    {
+        for as_stream in [true, false] {
+            for pad in [0usize, 480, 600] {
+                let mut doc = Document::with_version("1.5");
+                doc.objects.insert((1, 0), Object::Dictionary(rt::dict(vec![(b"Type", Object::Name(b"Catalog".to_vec()))])));
+                let mut body = vec![b'p'; pad];
+                body.extend_from_slice(tail);
+                if as_stream {
+                    doc.objects.insert((2, 0), Object::Stream(Stream::new(Dictionary::new(), body)));
+                } else {
+                    doc.objects.insert((2, 0), Object::String(body, StringFormat::Literal));
+                }
+                doc.max_id = 2;
+                doc.trailer.set("Root", Object::Reference((1, 0)));
+                docs.push((doc, format!("eof-like tail #{} stream={} pad={}", i, as_stream, pad)));
+            }
+        }
+    }
+    // files that cross the 64 KiB boundary inside their last object: the cross-reference data holds
+    // one offset (its own) that needs one more byte than every other
+    for delta in [0usize, 1, 2, 40, 200] {
+        for big_last in [true, false] {
+            let mut doc = Document::with_version("1.5");
+            doc.objects.insert((1, 0), Object::Dictionary(rt::dict(vec![(b"Type", Object::Name(b"Catalog".to_vec()))])));
+            let filler = 65536 - 150 - delta;
+            if big_last {
+                doc.objects.insert((2, 0), Object::Integer(2));
+                doc.objects.insert((3, 0), Object::Stream(Stream::new(Dictionary::new(), vec![b'z'; filler])));
+            } else {
+                doc.objects.insert((2, 0), Object::Stream(Stream::new(Dictionary::new(), vec![b'z'; filler])));
+                doc.objects.insert((3, 0), Object::String(vec![b's'; 100 + delta], StringFormat::Literal));
+            }
+            doc.max_id = 3;
+            doc.trailer.set("Root", Object::Reference((1, 0)));
+            docs.push((doc, format!("64KiB boundary delta={} big_last={}", delta, big_last)));
+        }
+    }
     // empty document, and a document with only max_id
     docs.push((Document::with_version("1.4"), "empty".into()));
     let mut d = Document::with_version("1.4");
